@@ -19,11 +19,18 @@ cp "$d/demo_test.go" "$wt/$place/zz_seed_demo_test.go"
 ( cd "$wt" && git checkout -q -- . )
 ( cd "$wt" && go test -vet=off -count=1 ./$place ) >/tmp/seedchk.demo2.$$ 2>&1 && res demo-without-patch "passes (expected)" || { res demo-without-patch "FAILS (unexpected)"; tail -5 /tmp/seedchk.demo2.$$; }
 rm -f /tmp/seedchk.*.$$
-# now the check on /repo itself
-if [ -n "$(git -C /repo status --porcelain)" ]; then echo "/repo not clean"; exit 4; fi
-git -C /repo apply "$d/patch.diff" || exit 3
-( cd /verif && ./check "$prop" quick ) > /tmp/seedchk.check 2>&1; rc=$?
-git -C /repo checkout -- .
-grep -c '^VIOLATION' /tmp/seedchk.check | sed 's/^/violations: /'
-grep '^VIOLATION\|^property' /tmp/seedchk.check | head -6
+if [ -n "${SEED_USE_WT:-}" ]; then
+  # parallel-friendly variant: the check runs against the scratch worktree (GOVC_REPO), evidence untouched
+  ( cd "$wt" && git apply "$d/patch.diff" ) || exit 3
+  ( cd /verif && GOVC_REPO="$wt" GOVC_NOEVIDENCE=1 ./bin/govc check "$prop" quick ) > /tmp/seedchk.check.$$ 2>&1; rc=$?
+else
+  # the check on /repo itself
+  if [ -n "$(git -C /repo status --porcelain)" ]; then echo "/repo not clean"; exit 4; fi
+  git -C /repo apply "$d/patch.diff" || exit 3
+  ( cd /verif && ./check "$prop" quick ) > /tmp/seedchk.check.$$ 2>&1; rc=$?
+  git -C /repo checkout -- .
+fi
+grep -c '^VIOLATION' /tmp/seedchk.check.$$ | sed 's/^/violations: /'
+grep '^VIOLATION\|^property' /tmp/seedchk.check.$$ | sed 's#replay=/tmp/[^/]*/#replay=#' | head -8
+rm -f /tmp/seedchk.check.$$
 echo "check-exit: $rc"
